@@ -4,6 +4,7 @@ pub mod c01;
 pub mod c02;
 pub mod c03;
 pub mod c08;
+pub mod c09;
 pub mod c11;
 pub mod c12;
 pub mod c13;
@@ -30,6 +31,7 @@ pub fn check(id: &str, tier: &str) -> i32 {
         "C03" => c03::check_c03(tier),
         "C04" => c03::check_c04(tier),
         "C08" => c08::check(tier),
+        "C09" => c09::check(tier),
         "C11" => c11::check(tier),
         "C12" => c12::check(tier),
         "C13" => c13::check(tier),
